@@ -333,9 +333,9 @@ def body_cross(case):
             out.append(Violation("C18/cross/bs/closed-form-parity", detail))
     # FFT (Carr-Madan) against COS.  The FFT pricer integrates with a fixed step eta = 0.25: the characteristic
     # function is resolved only when the standard deviation of the log-return is moderate (a probe with a standard
-    # deviation of ~3 gave errors of 40% at the money): compare when sqrt(cumulant2) <= 0.8
+    # deviation of ~3 gave errors of 40% at the money, 0.79 gave 6e-3*spot at 0.4*spot in the thorough tier): compare when sqrt(cumulant2) <= 0.6
     std = math.sqrt(max(float(model.cumulant.cumulant2(T)), 0.0))
-    if std > 0.8:
+    if std > 0.6:
         return out + [Violation("LABEL:fft-step-too-coarse-for-this-variance")]
     try:
         fft = FFTPricer(model)
